@@ -100,6 +100,16 @@ def qr_workload(ctx, maps, g, extra_maps=None):
                         sets.append(mkset(mp, ec, [(1, a, 0, 0) for a in sub] + [(2, a, 0, 0) for a in sub]))
             sets.append(mkset(mp, ec, [(1, a, 0, 0) for a in range(4)] + [(2, a, 0, 0) for a in range(4, 8)]))  # beyond: 4 + 4
             ev.append(dict(op="dmg", text=text, ec=ec, vh=v, mh=(ec * 3 + ctx.seed) % 8, cs=cs, sets=sets, tag="format"))
+    # (iii-b) all 32 format words (level x mask): singles, seeded doubles and triples flipped identically in both copies - a slip in
+    #         one entry of the decoder's format table is absorbed by nearest-codeword decoding until three more bits are damaged
+    for ec in range(1, 5):
+        for mask in range(8):
+            mp = maps[1]
+            text, cs = qrlib.text_of("alnum", 4, rng)
+            subs = [(a,) for a in range(15)] + [tuple(rng.sample(range(15), 2)) for _ in range(20 if ctx.quick else 105)] \
+                + [tuple(rng.sample(range(15), 3)) for _ in range(40 if ctx.quick else 455)]
+            sets = [mkset(mp, ec, [(1, a, 0, 0) for a in sub] + [(2, a, 0, 0) for a in sub]) for sub in subs]
+            ev.append(dict(op="dmg", text=text, ec=ec, vh=1, mh=mask, cs=cs, sets=sets, tag="formatwords"))
     # version information: seeded subsets of <= 3 of 18 bits per copy (exhaustive over single and double flips of copy 1)
     for v in [x for x in sorted(maps) if x >= 7][: (2 if ctx.quick else 40)]:
         mp = maps[v]
